@@ -80,10 +80,12 @@ def install(M, L=None):
         def start(self):
             cb = self._callback; del self._callback
             rw = self._read_waiters; del self._read_waiters
+            S = vsched._S()
+            # spawning a process takes time: a scheduling point of its own (other threads run meanwhile)
+            S.op("pstart", self, lambda: True, lambda: S.log(e="pstart", task=vsched._tls.acting.name))
             state["cnt"] += 1; self._vpid = state["cnt"]
             conn = FakeConn(); self._send = conn; self._recv = conn; self._lock = threading.Lock()
             child = object.__new__(VProcessLine); child._line = proc_copy(self._line); child._send = conn
-            S = vsched._S()
             self._task = S.spawn("W%d" % self._vpid, lambda: ProcessLine.run(child))
             if cb:
                 def join_and_call():
